@@ -489,6 +489,12 @@ func enumC14(emit func(c any) bool) {
 		{Kind: "slice", Elem: &sInt},
 		{Kind: "map", Elem: &sInt},
 	}
+	// ... and where a scalar of every kind is expected (null, booleans, strings and
+	// numbers of every event kind into every scalar target kind, as target, map
+	// value, slice element, struct field and pointer target)
+	for _, k := range gomodel.ScalarKinds {
+		elems = append(elems, gomodel.TypeDesc{Kind: k})
+	}
 	var wrong []([]model.Ev)
 	for _, k := range plainKinds {
 		e := model.Ev{K: k, I: 1, U: 1, F: 0x3ff0000000000000, B: true, S: []byte("s")}
@@ -529,7 +535,7 @@ func init() {
 	register(&Property{
 		ID:            "C14",
 		Enum:          enumC14,
-		Rule:          "(stream, target type) pairs: (i) drawn independently (mostly mismatching), (ii) a matching perturbed stream (C13 renderer) with one subtree replaced by another random value at a drawn position and depth (scalar<->array<->object, key where none is expected, wrong element kinds, typed containers), (iii) matching streams whose container start announces 2^16..2^63-1 elements that are not delivered; 1 in 4 targets already hold a generated value (non-nil slices with spare capacity, maps with entries, allocated pointers; safety oracles only); optionally abandoned after a drawn event index; 1 in 8 cases repeat the (abandoned or failing) document 1..1100 more times, each time after Reset + SetTarget, with the same outcome required; then Reset + SetTarget(new variable of the same type) + a matching perturbed document of a second value (members omitted), then Reset + SetTarget + a fixed probe document of a fixed type. Deterministic part: every scalar event kind and the wrong container kind where a struct, slice, map, pointer-to-struct, slice-of-struct or map-of-struct is expected, as target, map value, slice element, struct field and pointer target. Oracle: no panic; TotalAlloc <= 256KiB + 512 B/event + 8 B/string byte; the target sits between sentinel words that must stay intact; a success must equal the reference assignment model on the same stream (compared when every number fits); after each Reset+SetTarget the result, outcome and stack depths equal a new unfolder's on the same document. non-trivial = an error at depth >= 1 or abandonment inside a nested container; distinct by case hash. The thorough tier repeats the search with the -race build (checkptr)",
+		Rule:          "(stream, target type) pairs: (i) drawn independently (mostly mismatching), (ii) a matching perturbed stream (C13 renderer) with one subtree replaced by another random value at a drawn position and depth (scalar<->array<->object, key where none is expected, wrong element kinds, typed containers), (iii) matching streams whose container start announces 2^16..2^63-1 elements that are not delivered; 1 in 4 targets already hold a generated value (non-nil slices with spare capacity, maps with entries, allocated pointers; safety oracles only); optionally abandoned after a drawn event index; 1 in 8 cases repeat the (abandoned or failing) document 1..1100 more times, each time after Reset + SetTarget, with the same outcome required; then Reset + SetTarget(new variable of the same type) + a matching perturbed document of a second value (members omitted), then Reset + SetTarget + a fixed probe document of a fixed type. Deterministic part: every scalar event kind and the wrong container kind where a struct, slice, map, pointer-to-struct, slice-of-struct, map-of-struct or a scalar of each of the 14 kinds is expected, as target, map value, slice element, struct field and pointer target. Oracle: no panic; TotalAlloc <= 256KiB + 512 B/event + 8 B/string byte; the target sits between sentinel words that must stay intact; a success must equal the reference assignment model on the same stream (compared when every number fits); after each Reset+SetTarget the result, outcome and stack depths equal a new unfolder's on the same document. non-trivial = an error at depth >= 1 or abandonment inside a nested container; distinct by case hash. The thorough tier repeats the search with the -race build (checkptr)",
 		New:           func() any { return &C14Case{} },
 		Draw:          drawC14,
 		Check:         checkC14,
